@@ -384,7 +384,10 @@ pub fn run_find(sc: &FindScenario, ctx: &mut Ctx) -> FindObs {
 /// Run find_main with cwd = `root` (tree already there).
 pub fn run_find_prebuilt(sc: &FindScenario, ctx: &mut Ctx, root: PathBuf) -> FindObs {
     ctx.prepare_process(sc.rlimit_stack, sc.env.as_deref());
-    std::env::set_current_dir(&root).expect("chdir scratch root");
+    if !root.as_os_str().is_empty() {
+        // (an empty root: the process is already there, and paths are used as they are)
+        std::env::set_current_dir(&root).expect("chdir scratch root");
+    }
     if let Some(list) = sc.starts_file_content() {
         let _ = fs::write(root.join(STARTS_FILE), list);
     }
@@ -562,7 +565,7 @@ fn reconcile_real_children(log: &mut Log, recs: &[crate::xargs::ChildRec], simch
 /// it when this returns.
 pub fn enter_long_cwd(ctx: &Ctx, len: usize) -> std::io::Result<()> {
     let base = ctx.scratch.join("L");
-    wipe_deep(&ctx.scratch, "L");
+    crate::sys::wipe_deep(&ctx.scratch, std::ffi::OsStr::new("L"));
     fs::create_dir_all(&base)?;
     std::env::set_current_dir(&base)?;
     let mut have = base.as_os_str().len();
@@ -636,33 +639,7 @@ pub fn judge_real_children(sc: &FindScenario, obs: &FindObs) -> Option<(&'static
 /// Back out of the long working directory and remove it.
 pub fn leave_long_cwd(ctx: &Ctx) {
     let _ = std::env::set_current_dir(&ctx.scratch);
-    wipe_deep(&ctx.scratch, "L");
-}
-
-/// Remove `parent/name` recursively without ever naming a path longer than one component:
-/// descends with chdir. Leaves the process in `parent`.
-pub fn wipe_deep(parent: &Path, name: &str) {
-    fn rec(name: &std::ffi::OsStr) {
-        let Ok(md) = fs::symlink_metadata(name) else { return };
-        if md.is_dir() {
-            let _ = fs::set_permissions(name, fs::Permissions::from_mode(0o700));
-            if std::env::set_current_dir(name).is_ok() {
-                if let Ok(rd) = fs::read_dir(".") {
-                    let names: Vec<std::ffi::OsString> = rd.flatten().map(|e| e.file_name()).collect();
-                    for n in names {
-                        rec(&n);
-                    }
-                }
-                let _ = std::env::set_current_dir("..");
-            }
-            let _ = fs::remove_dir(name);
-        } else {
-            let _ = fs::remove_file(name);
-        }
-    }
-    if std::env::set_current_dir(parent).is_ok() {
-        rec(std::ffi::OsStr::new(name));
-    }
+    crate::sys::wipe_deep(&ctx.scratch, std::ffi::OsStr::new("L"));
 }
 
 /// Fold a find run's events into the abstract trace and the fault counters.
